@@ -1,6 +1,8 @@
 (* C19 - Implicitization and Bernstein-basis root finding (partial: implicit function of degree 1-3, interpolation,
    basis change; the eigenvalue / root-finding back ends (LAPACK, polyroots) are not modelled). Statements only. *)
 From Coq Require Import List ZArith QArith Bool String.
+From Coq Require Import Qcanon.
+From BZ Require Import Base.Ops Base.QcInst Model.Curve Model.Sigma Theory.SigmaTheory.
 From BZ Require Import Base.PyVal Gen.PyFnAlgebraic Theory.Algebraic Model.Algebraic Theory.Algebraic3.
 Import ListNotations.
 Open Scope Q_scope.
@@ -63,3 +65,45 @@ Theorem C19_basis_change_unsupported : forall b0 b1 b2 b3 b4 rest,
   py_poly_to_power_basis (VTup (VQ b0 :: VQ b1 :: VQ b2 :: VQ b3 :: VQ b4 :: rest)) = VErr "UnsupportedDegree".
 Proof. exact poly_to_power_basis_unsupported. Qed.
 Print Assumptions C19_basis_change_unsupported.
+
+(* ---- the Bernstein root finder: sigma transform and companion matrix (hand model Model/Sigma.v of _get_sigma_coeffs and
+   bernstein_companion, tied by correspondence; any field of characteristic 0, is0 any exact zero test) ---- *)
+(* the polynomial in Bernstein form factors as  C(d,e) c_e (1-s)^(d-e) * (homogeneous monic sigma polynomial):
+   s = 1 is a root of multiplicity d - e, the others come from the sigma polynomial *)
+Theorem C19_sigma_factorization : forall (T : Type) (K : Ops T), field_of K -> char0 K ->
+  forall (is0 : T -> bool), (forall x, is0 x = true <-> x = o0 K) ->
+  forall c sig d e l1 l2, get_sigma_coeffs K is0 c = (Some sig, d, e) ->
+  bernstein K c l1 l2 = omul K (omul K (omul K (ofn K (choose d e)) (nth e c (o0 K))) (pw K l1 (d - e))) (hom_sigma K sig l1 l2).
+Proof. exact @sigma_factorization. Qed.
+Print Assumptions C19_sigma_factorization.
+Theorem C19_roots_are_the_sigma_roots : forall (T : Type) (K : Ops T), field_of K -> char0 K ->
+  forall (is0 : T -> bool), (forall x, is0 x = true <-> x = o0 K) ->
+  forall c sig d e s, get_sigma_coeffs K is0 c = (Some sig, d, e) -> osub K (o1 K) s <> o0 K ->
+  (bernstein K c (osub K (o1 K) s) s = o0 K <-> sigma_poly K sig (odiv K s (osub K (o1 K) s)) = o0 K).
+Proof. exact @roots_correspond. Qed.
+Print Assumptions C19_roots_are_the_sigma_roots.
+Theorem C19_reported_value_of_a_sigma_root_is_a_root : forall (T : Type) (K : Ops T), field_of K -> char0 K ->
+  forall (is0 : T -> bool), (forall x, is0 x = true <-> x = o0 K) ->
+  forall c sig d e x, get_sigma_coeffs K is0 c = (Some sig, d, e) -> oadd K (o1 K) x <> o0 K ->
+  sigma_poly K sig x = o0 K ->
+  bernstein K c (osub K (o1 K) (odiv K x (oadd K (o1 K) x))) (odiv K x (oadd K (o1 K) x)) = o0 K.
+Proof. exact @sigma_root_gives_root. Qed.
+Print Assumptions C19_reported_value_of_a_sigma_root_is_a_root.
+(* the eigenvalue problem handed to LAPACK is exactly the root problem of the sigma polynomial *)
+Theorem C19_sigma_root_is_an_eigenvalue_of_the_companion : forall (T : Type) (K : Ops T), field_of K ->
+  forall (sig : list T) x, (1 <= List.length sig)%nat -> sigma_poly K sig x = o0 K ->
+  matvec_rows K (companion K sig) (rev (powers K x (List.length sig))) = map (omul K x) (rev (powers K x (List.length sig))) /\
+  last (rev (powers K x (List.length sig))) (o0 K) = o1 K.
+Proof. exact @root_is_eigenvalue. Qed.
+Print Assumptions C19_sigma_root_is_an_eigenvalue_of_the_companion.
+Theorem C19_eigenvalue_of_the_companion_is_a_sigma_root : forall (T : Type) (K : Ops T), field_of K ->
+  forall (sig v : list T) lam, (1 <= List.length sig)%nat -> List.length v = List.length sig ->
+  matvec_rows K (companion K sig) v = map (omul K lam) v -> ~ Forall (fun y => y = o0 K) v ->
+  sigma_poly K sig lam = o0 K.
+Proof. exact @eigenvalue_is_root. Qed.
+Print Assumptions C19_eigenvalue_of_the_companion_is_a_sigma_root.
+(* non-vacuity: a cubic-form polynomial of effective degree 2 (coefficients 2, -3, 1, 0): sigma = (2/3, -3), d = 3, e = 2 *)
+Example C19_sigma_example :
+  (let '(sg, d, e) := get_sigma_coeffs QcOps (fun x => Qc_eqb x (Q2Qc 0)) (qcs [2; -3; 1; 0]) in
+   (option_map (map this) sg, d, e)) = (Some [2 # 3; -3 # 1], 3%nat, 2%nat).
+Proof. vm_compute. reflexivity. Qed.
